@@ -423,12 +423,25 @@ class Sampler(metaclass=value.ABCMetaImplementAnyOneOf):
             ValueError: if the qid_shape of different instances of the same measurement
             key disagree.
         """
+        from cirq.circuits import CircuitOperation
+
+        def flat_operations(c: cirq.AbstractCircuit):
+            # A sub-circuit records its keys once per repetition, under the mapped names.
+            for op in c.all_operations():
+                if isinstance(op.untagged, CircuitOperation):
+                    yield from flat_operations(op.untagged.mapped_circuit())
+                else:
+                    yield op
+
         qid_shapes: dict[str, tuple[int, ...]] = {}
         num_instances: dict[str, int] = collections.Counter()
-        for op in circuit.all_operations():
+        for op in flat_operations(circuit):
             key = protocols.measurement_key_name(op, default=None)
             if key is not None:
-                qid_shape = protocols.qid_shape(op)
+                if isinstance(op.gate, ops.PauliMeasurementGate):
+                    qid_shape: tuple[int, ...] = (2,)  # one bit: the eigenvalue of the observable
+                else:
+                    qid_shape = protocols.qid_shape(op)
                 prev_qid_shape = qid_shapes.setdefault(key, qid_shape)
                 if qid_shape != prev_qid_shape:
                     raise ValueError(
